@@ -302,15 +302,16 @@ class TcpclAdaptor(AbstractAdaptor):
                 cl_conn.send_bundle_data(data)
             else:
                 self._logger.info('Need session with %s', next_nodeid)
-                if next_nodeid not in self._sess_wait:
-                    self._sess_wait[next_nodeid] = []
-                self._sess_wait[next_nodeid].append(data)
-
                 if next_nodeid not in self._cl_conn_nodeid:
                     address = tx_params['address']
                     port = tx_params.get('port', 4556)
                     self._logger.info('Connecting to [%s]:%d', address, port)
                     self.agent_obj.connect(address, port)
+
+                # only what the caller was not told had failed waits for the session
+                if next_nodeid not in self._sess_wait:
+                    self._sess_wait[next_nodeid] = []
+                self._sess_wait[next_nodeid].append(data)
 
         return sender
 
